@@ -860,7 +860,7 @@ coap_op_dyn_resource_read(FILE *fp, coap_proto_t *e_proto,
     *name = coap_new_string(size);
     if (!(*name))
       goto fail;
-    if (fread((*name)->s, size, 1, fp) != 1)
+    if (size && fread((*name)->s, size, 1, fp) != 1)
       goto fail;
     if (fread(&size, sizeof(size), 1, fp) != 1)
       goto fail;
@@ -888,7 +888,7 @@ coap_op_dyn_resource_write(FILE *fp, coap_proto_t e_proto,
     goto fail;
   if (fwrite(&name->length, sizeof(name->length), 1, fp) != 1)
     goto fail;
-  if (fwrite(name->s, name->length, 1, fp) != 1)
+  if (name->length && fwrite(name->s, name->length, 1, fp) != 1)
     goto fail;
   if (fwrite(&raw_packet->length, sizeof(raw_packet->length), 1, fp) != 1)
     goto fail;
